@@ -464,8 +464,27 @@ func genScenario(rng *Rng, kind string) *Scenario {
 		s.faultNth = 1 + rng.Intn(2)
 		s.faultMatch = []string{":skipped", ":skipped", ":blocked"}[rng.Intn(3)]
 		s.faultMode = "fail"
+		if rng.Chance(2, 3) {
+			// directed: the verdict of the first task (pushed first, usually with dependents) is the write that fails
+			if s.tasks[0].pre["c"].Act == entity.ActiveActionSkip {
+				s.faultMatch = ":skipped"
+			} else {
+				s.faultMatch = ":blocked"
+			}
+			s.faultNth = 1
+		}
 		if rng.Chance(1, 2) {
 			s.crashAt = []int{8 + rng.Intn(30)}
+		}
+	case "runfault":
+		// the write that records a task as running fails, and the worker dies a little later: whatever the code
+		// did about the failed write, no main action may run twice and none may run unrecorded
+		s.faultNth = 1 + rng.Intn(3)
+		s.faultMatch = "suffix=:running"
+		s.faultMode = "fail"
+		s.crashAt = []int{3 + rng.Intn(25)}
+		if rng.Chance(1, 3) {
+			s.crashAt = append(s.crashAt, 10+rng.Intn(30))
 		}
 	case "cancelfault":
 		// a cancelled in-flight task whose action returns nil is kept as success and tagged; that tag write fails
